@@ -841,3 +841,51 @@ def preceding_stmts(body, target):
         return False
     go(body, [])
     return res[0] if res else None
+
+
+# ----------------------------------------------------------------------------------------------
+# reviewed panic sites that moved into a private helper
+
+_CALLERS_CACHE = {}
+
+
+def callers_by_name(crate):
+    """normalised callee path -> set of normalised caller paths (closures attributed to their enclosing function)"""
+    key = id(crate)
+    if key in _CALLERS_CACHE:
+        return _CALLERS_CACHE[key]
+    G = CallGraph(crate)
+    rev = defaultdict(set)
+    for dp, m in crate.mir_by_dp.items():
+        caller = re.sub(r"(::\{closure#\d+\})+$", "", norm(m["path"]))
+        for tgt, kind, _ in G.edges(dp):
+            if kind == "closure":
+                continue
+            t = crate.mir_by_dp.get(tgt)
+            if t is not None:
+                callee = re.sub(r"(::\{closure#\d+\})+$", "", norm(t["path"]))
+                if callee != caller:
+                    rev[callee].add(caller)
+    _CALLERS_CACHE[key] = rev
+    return rev
+
+
+def moved_panic_reason(crate, fn, kind, allowed, present):
+    """A panic site of `kind` in function `fn` that is not in the reviewed list is still accepted when it is a reviewed
+    site that was moved into a helper: fn is not `pub`, not a trait method, has callers, and every caller has a reviewed
+    entry of the same kind whose own site no longer exists. allowed/present: sets of (function, kind)."""
+    base = re.sub(r"(::\{closure#\d+\})+$", "", fn)
+    it = crate.item(base)
+    if it is None or it.get("vis") == "Public" or it.get("parent_kind", "").startswith("Impl { of_trait: true"):
+        return None
+    callers = callers_by_name(crate).get(base, set())
+    if not callers:
+        return None
+    for c in callers:
+        if (c, kind) not in allowed:
+            # the caller itself may be a closure-carrying function whose entry is keyed with the closure suffix
+            if not any(a[1] == kind and re.sub(r"(::\{closure#\d+\})+$", "", a[0]) == c for a in allowed):
+                return None
+        if any(p[1] == kind and re.sub(r"(::\{closure#\d+\})+$", "", p[0]) == c for p in present):
+            return None
+    return "reviewed %s site(s) of %s moved into this private helper" % (kind, ", ".join(sorted(callers)))
